@@ -993,10 +993,11 @@ ConcurrentTransientHashSet<T, H, E>::begin() noexcept {
   }
   while (ABSL_PREDICT_FALSE(node != nullptr)) {
     iter = node->table.begin();
+    auto next = node->next.load(::std::memory_order_acquire);
     if (iter != node->table.end()) {
-      return {nullptr, iter};
+      return {next, iter};
     }
-    node = _head.next.load(::std::memory_order_acquire);
+    node = next;
   }
   return {};
 }
@@ -1185,7 +1186,9 @@ ABSL_ATTRIBUTE_NOINLINE void ConcurrentTransientHashSet<T, H, E>::reserve(
 template <typename T, typename H, typename E>
 ABSL_ATTRIBUTE_NOINLINE size_t ConcurrentTransientHashSet<T, H, E>::total_size(
     TableNode* node) const noexcept {
-  auto sum = _head.table.bucket_count();
+  // a head with a successor is either full (size == bucket_count) or the
+  // default-constructed placeholder, which holds nothing (size == 0)
+  auto sum = _head.table.size();
   while (true) {
     auto next = node->next.load(::std::memory_order_acquire);
     if (next == nullptr) {
